@@ -259,12 +259,14 @@ pub fn judged_pair(dice: &[u16], seed: u64) -> Case {
 
 /// stranger selectors: everything here is meant to be accepted by the style-rule parser, or else
 /// the case is discarded by the check
-const ODD: [&str; 48] = [
+const ODD: [&str; 54] = [
     "> a", "a >", "+ a", "~ a", "a > > b", "a + ~ b", "> a, b", "a >, b", "*", "*|a", "|a", "ns|a", "ns|*", "*|*", "[p=v]", "[p~='v w']",
     "[p|=v i]", "[ns|p^=v]", "[*|p$=v]", "[p*='v' s]", "::before", "a::after", ":before", "::slotted(.x)", "::slotted(a > b)", ":host(.x)",
     ":host-context(a b)", ":nth-child(2n+1 of .x)", ":nth-last-child(even of a, b)", ":nth-child(-n+3)", ":has(> a)", ":has(.x, + b)",
     ":not(> a)", ":is(a >)", ":not(:not(.x))", ":is(:is(a))", ":not(*)", ":-moz-any(a, .x)", ":-webkit-any(.y)", ":current(.x)", ":lang(en)",
     ":not(.x, .y):not(a b)", "%p", "%p.x", "a%p", ".x.x", "a:not(a)", "#i#j",
+    // the parent selector: accepted by the style-rule parser inside another rule
+    "&", "& d", "a &", "&.x", "&-s", ":not(&)",
 ];
 
 pub fn crash_case(dice: &[u16], seed: u64) -> Case {
